@@ -48,6 +48,15 @@ func (e *Expr2) Text() string {
 		return "!switch " + e.Name + " " + e.Lit
 	case "size":
 		return "size(" + e.Name + ")"
+	case "atom":
+		// an operand whose text is given and whose value the check derives from the record value:
+		// array subscripts (positional / by dimension name), size / dimensionIndex / dimensionCount
+		// calls, member accesses
+		return e.Lit
+	case "switch2":
+		// like "switch": a !switch computed field over the optional / nullable union field Name,
+		// in the variant named by Lit (built by the model builder)
+		return "!switch2 " + e.Name + " " + e.Lit
 	case "bin":
 		return e.L.Text() + " " + e.Op + " " + e.R.Text()
 	}
@@ -106,9 +115,9 @@ func NeedsParen(parent string, child *Expr2, right bool) bool {
 // IsIntTyped reports whether the expression is integer-valued by the documented rules.
 func (e *Expr2) IsIntTyped() bool {
 	switch e.Kind {
-	case "field", "index":
+	case "field", "index", "atom":
 		return model.IsIntPrim(e.Prim)
-	case "int", "size", "switch":
+	case "int", "size", "switch", "switch2":
 		return true
 	case "float":
 		return false
@@ -130,7 +139,7 @@ func (e *Expr2) IsIntTyped() bool {
 // mathematical value is out of range for it.
 func (e *Expr2) IsUnsignedTyped() bool {
 	switch e.Kind {
-	case "field", "index":
+	case "field", "index", "atom":
 		return model.IsIntPrim(e.Prim) && !model.IsSignedInt(e.Prim)
 	case "size":
 		return true
@@ -204,6 +213,16 @@ func (e *Expr2) eval(fields map[string]*big.Rat, vecs map[string][]*big.Rat) Eva
 	case "switch":
 		// the value held by the union field, whichever case holds it
 		return EvalResult{Val: fields["#"+e.Name]}
+	case "atom":
+		if v, ok := fields["@"+e.Lit]; ok {
+			return EvalResult{Val: v}
+		}
+		return EvalResult{Undefined: "operand without a value in this record"}
+	case "switch2":
+		if v, ok := fields["#"+e.Name+":"+e.Lit]; ok {
+			return EvalResult{Val: v}
+		}
+		return EvalResult{Undefined: "switch variant without a value in this record"}
 	case "int":
 		r, _ := new(big.Rat).SetString(e.Lit)
 		return EvalResult{Val: r}
